@@ -40,6 +40,7 @@ package server
 //@   ensures[C15.wait] catLen(m, received) < 8 || (catHeader(m, received) && catLen(m, received) < 6 + catLenField(m, received)) ==> isnil(response) && handled == old(handled) && buflen(m.received) == catLen(m, received)
 //@   ensures[C15.wait] catLen(m, received) < 8 || (catHeader(m, received) && catLen(m, received) < 6 + catLenField(m, received)) ==> forall k in 0..catLen(m, received) :: bufbyte(m.received, k) == cat(m, received, k)
 //@   ensures[C15.once] catOneFrame(m, received) ==> buflen(m.received) == 0 && !isnil(response) && handled <= old(handled) + 1
+//@   ensures[C15.answer] catHeader(m, received) && catLen(m, received) >= 6 + catLenField(m, received) ==> !isnil(response) && len(response) >= 1 && buflen(m.received) <= catLen(m, received) - (6 + catLenField(m, received))
 //@   ensures[C15.leftover,C16] catHeader(m, received) && catLen(m, received) >= 6 + catLenField(m, received) && catLen(m, received) - (6 + catLenField(m, received)) < 8 ==> !isnil(response) && buflen(m.received) == catLen(m, received) - (6 + catLenField(m, received))
 //@   ensures[C15.leftover,C16] catHeader(m, received) && catLen(m, received) >= 6 + catLenField(m, received) && catLen(m, received) - (6 + catLenField(m, received)) < 8 ==> forall k in 0..buflen(m.received) :: bufbyte(m.received, k) == cat(m, received, 6 + catLenField(m, received) + k)
 //@   ensures[C15.once,C16] catOneFrame(m, received) && !supportedFC(cat(m, received, 7)) && cat(m, received, 7) < 128 ==> replyTo(m, received, response) && response[8] == 1 && handled == old(handled)
@@ -51,6 +52,7 @@ package server
 //@     invariant forall k in 0..buflen(m.received) :: bufbyte(m.received, k) == cat(m, received, catLen(m, received) - buflen(m.received) + k)
 //@     invariant buflen(m.received) == catLen(m, received) ==> isnil(response) && handled == old(handled)
 //@     invariant isnil(response) ==> buflen(m.received) == catLen(m, received)
+//@     invariant catHeader(m, received) && catLen(m, received) >= 6 + catLenField(m, received) && buflen(m.received) < catLen(m, received) ==> buflen(m.received) <= catLen(m, received) - (6 + catLenField(m, received)) && !isnil(response) && len(response) >= 1
 //@     invariant buflen(m.received) == catLen(m, received) && catLen(m, received) >= 8 ==> bufbyte(m.received, 2) == cat(m, received, 2) && bufbyte(m.received, 3) == cat(m, received, 3) && bufbyte(m.received, 4) == cat(m, received, 4) && bufbyte(m.received, 5) == cat(m, received, 5) && bufbyte(m.received, 7) == cat(m, received, 7)
 //@     invariant catHeader(m, received) && catLen(m, received) >= 6 + catLenField(m, received) && catLen(m, received) - (6 + catLenField(m, received)) < 8 && !isnil(response) ==> buflen(m.received) == catLen(m, received) - (6 + catLenField(m, received))
 //@     invariant catLen(m, received) < 8 || (catHeader(m, received) && catLen(m, received) < 6 + catLenField(m, received)) ==> buflen(m.received) == catLen(m, received)
